@@ -157,3 +157,110 @@ Example C02_nonvacuous :
   nth 2 (sfl_of (hist (buy 70 4 6) true)) None = Some ((-52, 3%positive), (4, 1%positive)) /\
   nth 2 (sfl_of (hist (buy 69 4 6) true)) None = None.
 Proof. vm_compute. repeat split. Qed.
+
+(* ======================================================================
+   Scans without rounding (Proofs/DecScan.v, on the transfer principle of
+   Proofs/DecTransfer.v).  [scan_inputs_small bef t sold aft st] is the
+   executable conjunction of: the sold quantity, the all-affiliate balance and
+   every affiliate balance of the state the scan starts from are decimals with
+   at most 10 places and magnitude below 10^12 ([small]); so is the share
+   count of every Buy / Sell among the rows the forward scan visits
+   ([fwd_window]: up to the first row settling more than 30 days after the
+   sale) and of every Buy among the rows the backward scan visits
+   ([bwd_window]); no Split row is among them (all adjustments are 1); the two
+   windows have at most 10^6 rows together.  Then the scans under rust_decimal
+   rounding return EXACTLY what they return in exact arithmetic: rounding can
+   not flip "superficial or not" nor change acquired / held / the buyers'
+   balances - only the ratio division and the denied amount round. *)
+From ACB Require Import Proofs.DecTransfer Proofs.DecScan Proofs.DecCorollaries.
+Local Close Scope Z_scope.
+
+Theorem C02_dec_scan_exact_without_splits : forall bef t sold aft st,
+  scan_inputs_small bef t sold aft st = true ->
+  sfl_info dec bef t sold aft st = sfl_info exact bef t sold aft st.
+Proof. exact DecScan.dec_scan_exact_without_splits. Qed.
+Check C02_dec_scan_exact_without_splits : forall bef t sold aft st,
+  scan_inputs_small bef t sold aft st = true ->
+  sfl_info dec bef t sold aft st = sfl_info exact bef t sold aft st.
+Print Assumptions C02_dec_scan_exact_without_splits.
+
+(* hence C02_scan_eq_rule reads verbatim for the ROUNDED scans there *)
+Theorem C02_dec_scan_eq_rule_without_splits : forall bef t sold aft st r,
+  scan_inputs_small bef t sold aft st = true ->
+  sd_sorted aft -> sd_sorted_desc bef ->
+  sfl_info dec bef t sold aft st = Ok r ->
+  match r with
+  | Some s =>
+      sc_acq s = rule_acquired bef t aft /\
+      sc_eop s = rule_held_end (all_after_sale st sold) t aft /\
+      rule_superficial bef t aft (all_after_sale st sold)
+  | None => ~ rule_superficial bef t aft (all_after_sale st sold)
+  end.
+Proof. exact DecCorollaries.dec_scan_eq_rule_without_splits. Qed.
+Check C02_dec_scan_eq_rule_without_splits : forall bef t sold aft st r,
+  scan_inputs_small bef t sold aft st = true ->
+  sd_sorted aft -> sd_sorted_desc bef ->
+  sfl_info dec bef t sold aft st = Ok r ->
+  match r with
+  | Some s =>
+      sc_acq s = rule_acquired bef t aft /\
+      sc_eop s = rule_held_end (all_after_sale st sold) t aft /\
+      rule_superficial bef t aft (all_after_sale st sold)
+  | None => ~ rule_superficial bef t aft (all_after_sale st sold)
+  end.
+Print Assumptions C02_dec_scan_eq_rule_without_splits.
+
+(* the predicate [small] means what the text says *)
+Theorem C02_small_is_ten_place_decimal : forall x : Qc,
+  small x = true ->
+  exists m : Z, (Z.abs m <= 10000000000000000000000)%Z /\ (this x == m # 10000000000)%Q.
+Proof. exact DecScan.small_is_ten_place_decimal. Qed.
+Check C02_small_is_ten_place_decimal : forall x : Qc,
+  small x = true ->
+  exists m : Z, (Z.abs m <= 10000000000000000000000)%Z /\ (this x == m # 10000000000)%Q.
+Print Assumptions C02_small_is_ten_place_decimal.
+
+(* Non-vacuity: 12.3456789012 shares held (two affiliates), 4.5 sold at a loss
+   on day 100; before it a purchase on day 95 (and one on day 50, outside the
+   window, with a share count that is NOT small: not read), after it a sale
+   by the other affiliate, a return of capital and a purchase of 2.0000000001
+   on day 128, then a Split on day 140 (outside the window: not read).  The
+   hypotheses hold and the rounded scan finds acquired = 5.5000000001 and
+   held = 8.8456789013. *)
+Local Open Scope Z_scope.
+Definition sp2 := {| af_id := 1003; af_reg := false; af_dflt := false |}.
+Definition mk2 sd a := {| t_sec := 0; t_td := sd; t_sd := sd; t_act := a; t_af := sp2; t_glob := false; t_ri := 0 |}.
+Definition dsc_st : pstate :=
+  {| ps_map := [(1000%N, {| s_sh := q 73456789012 10000000000; s_all := q 123456789012 10000000000; s_acb := Some (q 500 1) |});
+                (1003%N, {| s_sh := q 5 1; s_all := q 5 1; s_acb := Some (q 10 1) |})];
+     ps_all := q 123456789012 10000000000; ps_latest := default_aff |}.
+Definition dsc_sale := sell 100 9 1.
+Definition dsc_bef : list tx :=
+  [mk 95 (Buy (q 7 2) (q 3 1) (q 0 1) (q 1 1) (q 1 1)); mk 50 (Buy (q 1 3) (q 3 1) (q 0 1) (q 1 1) (q 1 1))].
+Definition dsc_aft : list tx :=
+  [mk2 105 (Sell (q 1 1) (q 3 1) (q 0 1) (q 1 1) (q 1 1) None); mk 110 (Roc (q 1 10) (q 1 1));
+   mk 128 (Buy (q 20000000001 10000000000) (q 3 1) (q 0 1) (q 1 1) (q 1 1));
+   mk 140 (Split (q 1 1) (q 3 1) false)].
+Example C02_dec_scan_nonvacuous :
+  scan_inputs_small dsc_bef dsc_sale (q 9 2) dsc_aft dsc_st = true /\
+  match sfl_info dec dsc_bef dsc_sale (q 9 2) dsc_aft dsc_st with
+  | Ok (Some s) => this (sc_acq s) = (55000000001 # 10000000000)%Q /\
+                   this (sc_eop s) = (88456789013 # 10000000000)%Q
+  | _ => False
+  end.
+Proof. vm_compute. repeat split. Qed.
+
+(* The no-Split hypothesis is needed: with a 1-for-3 split inside the window
+   the later share counts are divided by the ROUNDED factor
+   0.3333333333333333333333333333, and the rounded scan sees 1 share bought
+   as 3.0000000000000000000000000003 acquired instead of 3. *)
+Definition dsc_aft_split : list tx :=
+  [mk 105 (Split (q 1 1) (q 3 1) false); mk 110 (Buy (q 1 1) (q 3 1) (q 0 1) (q 1 1) (q 1 1))].
+Example C02_dec_scan_rounds_with_split :
+  scan_inputs_small [] dsc_sale (q 9 2) dsc_aft_split dsc_st = false /\
+  sfl_info dec [] dsc_sale (q 9 2) dsc_aft_split dsc_st <> sfl_info exact [] dsc_sale (q 9 2) dsc_aft_split dsc_st.
+Proof.
+  split; [vm_compute; reflexivity|]. intros H.
+  apply (f_equal (fun r => match r with Ok (Some s) => Some (this (sc_acq s)) | _ => None end)) in H.
+  vm_compute in H. discriminate H.
+Qed.
